@@ -293,7 +293,7 @@ def check(prop, tier):
     finally:
         shutil.rmtree(work, ignore_errors=True)
     res.cov['exhaustive'] = True
-    res.cov['rule'] = ('model: 9720 scenarios (3 trees x 1-2 + 1 file patches from 9 abstract file patches x optional -R x 2 backup configs) x all interleavings of 2 (thorough: and 3) workers, TLC exhaustive; '
+    res.cov['rule'] = ('model: 17424 scenarios (3 trees x 1-2 + 1 file patches from 11 abstract file patches, two of them ending in an error, x optional -R x 2 backup configs) x all interleavings of 2 (thorough: and 3) workers, TLC exhaustive; '
                        'binary: stratified sample of the Outcome scenarios, each run with 1, 2, 3, 4, 8, 16 threads on a free schedule and under 6 (thorough 10) scripted schedules (each worker running completely ahead once, random runs of 1-12 turns, strict '
                        'alternation) enforced at every consider / file-operation point; each forced run is also trace-validated against the model')
     res.assumptions += ['the baton hooks sit at every shared-state access (apply_worker loop top, every file operation); strace-based checks (C10, C15, C19) cross-check the operation hooks']
